@@ -139,10 +139,19 @@ int main(int argc, char **argv) {
     int flag = n.Solve(ab, dt, &data);
     n.Finalize();
     // was the initial state logged?
+    // was the initial state logged, and with which value?
     int logged = 0;
+    double logged_y0 = 0.0;
     FILE *f = fopen("naunet_error_record.txt", "r");
-    if (f) { char line[512]; while (fgets(line, sizeof line, f)) if (strstr(line, "y[0] =")) logged = 1; fclose(f); }
-    printf("%d %.17g %ld %ld %d\n", flag, ab[0], ncalls, nreinit, logged);
+    if (f) {
+        char line[512];
+        while (fgets(line, sizeof line, f)) {
+            const char *p = strstr(line, "y[0] =");
+            if (p && !logged) { logged = 1; logged_y0 = atof(p + 6); }
+        }
+        fclose(f);
+    }
+    printf("%d %.17g %ld %ld %d %.17g\n", flag, ab[0], ncalls, nreinit, logged, logged_y0);
     return 0;
 }
 #endif
